@@ -1051,3 +1051,83 @@ Proof.
   - intros p Hp. cbn in Hp. destruct Hp as [E|Hf]; [|contradiction]. subst p. unfold pixel_centre, shape0, shape1. cbn [length hd fst snd add sub mul div ofZ ROps T]. rewrite !ofNat_R.
     unfold two. cbn. lra.
 Qed.
+
+(* ------------------------------------------------------------------ declarative reading of [rule] and [agrees] *)
+Fixpoint no_agree (thr rel : option R) (prev : R) (l : list R) : Prop :=
+  match l with [] => True | v :: t => @agrees ROps thr rel prev v = false /\ no_agree thr rel v t end.
+
+Lemma last_cons_default {A} (l : list A) : forall a d, last (a :: l) d = last l a.
+Proof. induction l as [|b l IH]; intros a d; [reflexivity|]. change (last (a :: b :: l) d) with (last (b :: l) d). now rewrite !IH. Qed.
+Lemma rule_first_agreeing thr rel : forall l1 prev v l2,
+  l2 <> [] -> no_agree thr rel prev l1 -> @agrees ROps thr rel (last l1 prev) v = true ->
+  @rule ROps thr rel prev (l1 ++ v :: l2) = v.
+Proof.
+  induction l1 as [|a l1 IH]; intros prev v l2 Hne Hno Hag.
+  - destruct l2 as [|w l2]; [contradiction|]. cbn [app last] in *. rewrite rule_cons, Hag. reflexivity.
+  - destruct Hno as [Ha Hno]. cbn [app].
+    assert (E : exists w t, l1 ++ v :: l2 = w :: t) by (destruct l1; cbn; eauto). destruct E as [w [t E]].
+    rewrite E, rule_cons, Ha. change (T ROps) with R. rewrite <- E. apply IH; auto.
+    now rewrite last_cons_default in Hag.
+Qed.
+Lemma rule_no_agreement thr rel : forall l prev w, no_agree thr rel prev l -> @rule ROps thr rel prev (l ++ [w]) = w.
+Proof.
+  induction l as [|a l IH]; intros prev w Hno; [reflexivity|].
+  destruct Hno as [Ha Hno]. cbn [app].
+  assert (E : exists v t, l ++ [w] = v :: t) by (destruct l; cbn; eauto). destruct E as [v [t E]].
+  rewrite E, rule_cons, Ha. change (T ROps) with R. rewrite <- E. apply IH. exact Hno.
+Qed.
+
+Lemma agrees_spec (thr rel : option R) (prev cur : R) :
+  @agrees ROps thr rel prev cur = true <->
+  (forall t, thr = Some t -> 0 < prev /\ t <= Rmin prev cur / Rmax prev cur) /\
+  (forall r, rel = Some r -> Rabs (prev - cur) <= r).
+Proof.
+  assert (Hmin : @minT ROps prev cur = Rmin prev cur).
+  { unfold minT, Rmin. cbn [ltb ROps]. destruct (Rltb cur prev) eqn:E; rbool; destruct (Rle_dec prev cur); try reflexivity; lra. }
+  assert (Hmax : @maxT ROps prev cur = Rmax prev cur).
+  { unfold maxT, Rmax. cbn [ltb ROps]. destruct (Rltb prev cur) eqn:E; rbool; destruct (Rle_dec prev cur); try reflexivity; lra. }
+  assert (Habs : @absT ROps (prev - cur) = Rabs (prev - cur)).
+  { unfold absT, Rabs, zero. cbn [ltb opp ofZ ROps]. destruct (Rltb (prev - cur) 0) eqn:E; rbool; destruct (Rcase_abs (prev - cur)); try reflexivity; lra. }
+  unfold agrees, zero. cbn [ltb leb sub div ofZ ROps T]. rewrite Hmin, Hmax, Habs. rewrite andb_true_iff.
+  split.
+  - intros [H1 H2]. split.
+    + intros t Et. subst thr. apply andb_true_iff in H1. destruct H1 as [A B]. rbool. split; assumption.
+    + intros r Er. subst rel. rbool. assumption.
+  - intros [H1 H2]. split.
+    + destruct thr as [t|]; [|reflexivity]. destruct (H1 t eq_refl) as [A B]. apply andb_true_iff. split; [apply Rltb_true|apply Rleb_true]; assumption.
+    + destruct rel as [r|]; [|reflexivity]. apply Rleb_true. apply H2. reflexivity.
+Qed.
+
+(* ------------------------------------------------------------------ counts, boolean hypotheses, decorator + iterate *)
+Theorem grid_count m (ps og : RR) ss : shape_okP m ss -> ps_okR ps ->
+  length (@over_sampled_grid ROps m ps og ss) = list_sum (sqs ss).
+Proof.
+  intros Hsh Hps. rewrite sub_grid_formula by assumption. destruct Hsh as [Hl _]. unfold spec_grid.
+  rewrite (list_sum_flat_map_length (fun cs : RR * nat => @block ROps ps (fst cs) (snd cs))).
+  rewrite <- (block_lengths (fun p => fst p) m ps og ss Hl). f_equal. apply map_ext. intros. now rewrite map_length.
+Qed.
+
+Lemma shape_ok_P m ss : shape_ok m ss = true -> shape_okP m ss.
+Proof.
+  unfold shape_ok. intros H. apply andb_true_iff in H. destruct H as [H H3]. apply andb_true_iff in H. destruct H as [_ H2].
+  split; [now apply Nat.eqb_eq|]. unfold subs_ok. apply Forall_forall. intros s Hin.
+  rewrite forallb_forall in H3. specialize (H3 s Hin). now apply Nat.leb_le.
+Qed.
+
+Theorem decorator_iterate (f : RR -> R) m (ps og : RR) (grid_values : list RR) thr rel steps :
+  ps_okR ps -> thr_okR thr -> steps <> [] -> subs_ok steps -> level0_nonzero f m ps og ->
+  @decorated ROps f m ps og grid_values (@OSIterate ROps thr rel steps) = Ok (@spec_iterate ROps f m ps og thr rel steps).
+Proof. intros. unfold decorated. cbn [perform_over_sampling negb]. apply iterate_per_pixel_rule; assumption. Qed.
+
+(* ------------------------------------------------------------------ the hypotheses, spelled out; example mask *)
+Lemma hyp_shape : forall m ss,
+  shape_okP m ss <-> length ss = length (unmasked m) /\ Forall (fun s => (1 <= s)%nat) ss.
+Proof. intros; reflexivity. Qed.
+Lemma hyp_scales : forall ps : R * R, ps_okR ps <-> fst ps <> 0 /\ snd ps <> 0.
+Proof. intros; reflexivity. Qed.
+Lemma hyp_thr : forall thr, thr_okR thr <-> match thr with Some t => 0 < t | None => True end.
+Proof. intros; reflexivity. Qed.
+Lemma hyp_level0 : forall (f : R * R -> R) m ps og,
+  level0_nonzero f m ps og <-> exists p, In p (unmasked m) /\ f (@pixel_centre ROps (shape0 m) (shape1 m) ps og p) <> 0.
+Proof. intros; reflexivity. Qed.
+Definition ex_mask : mask := [[false; true; false]; [true; false; false]].
